@@ -1098,7 +1098,16 @@ class ListTerm(PreTerm):
         # can't use == as that builds a larger expression
         if not isinstance(other, ListTerm):
             return False
-        return self.value == other.value
+        if len(self.value) != len(other.value):
+            return False
+        for a, b in zip(self.value, other.value):
+            # items are usually Value objects, and == on those builds an expression instead of comparing
+            if isinstance(a, PreTerm) or isinstance(b, PreTerm):
+                if not (isinstance(a, PreTerm) and isinstance(b, PreTerm) and a.is_equal(b)):
+                    return False
+            elif (type(a) != type(b)) or (a != b):
+                return False
+        return True
 
     def act_on(self, arg, *, expr_walker: ExpressionWalker):
         """
